@@ -247,7 +247,7 @@ func TestEngine(t *testing.T) {
 			ops = append(ops, fmt.Sprintf("renamefault %d", id))
 		}
 		if id%4 == 1 {
-			ops = append(ops, fmt.Sprintf("bigentry %d", []int{3000, 9000, 20000}[r.IntN(3)]))
+			ops = append(ops, fmt.Sprintf("bigentry %d", []int{12000, 20000, 40000}[r.IntN(3)]))
 		}
 		runCase(tr, fmt.Sprintf("case %d", id), ops)
 	}
